@@ -10,7 +10,8 @@ RULE = ('Hypothesis generates DAG case specs (1-10 nodes over types with max_par
         'instances and fresh equal duplicates across parents and inside one parent; requested multiset incl. '
         'dependencies of other requested nodes; max_workers; pre-cached subset; bust_cache; context; completion '
         'schedule) and runs each under the schedule-controlling in-process Runner, and sampled ones under the real '
-        'serial / fork / spawn backends in processes with different hash seeds. Oracle: returned keys == request '
+        'serial / fork / spawn backends in processes with different hash seeds. Engine "two-runs": a second run_tasks call on the '
+        'SAME task objects (same Lab object or a new Lab on the same storage) with another nonce, with/without bust_cache. Oracle: returned keys == request '
         'list de-duplicated in order, each value == reference sequential evaluator. Non-trivial = closure of >= 3 '
         'nodes and at least one of: shared dependency, duplicate equal instance, dependency nested at container '
         'depth >= 2, requested node that is also a dependency, non-empty proper pre-cached subset. Distinct = '
@@ -51,6 +52,22 @@ def judge_obs(case: dict, obs) -> core.CaseResult:
                            labels=('exhaustive-small',), summary=None)
 
 
+def check_two_runs(spec: dict) -> core.CaseResult:
+    """Two run_tasks calls on the SAME task objects (same Lab object, or a new Lab on the same storage); the second with another
+    nonce in the context, with or without bust_cache. Both returned dicts must equal the reference."""
+    second = spec['second']
+    obs = dagrun.execute_case(spec, second=second)
+    ex1 = oracles.expect_for(spec, obs)
+    findings = oracles.c01_return_value(spec, obs, ex1)
+    if obs.second is not None and obs.outcome == 'return':
+        ex2 = oracles.expect_second(spec, obs, ex1, second)
+        for f in oracles.c01_return_value(spec, obs.second, ex2):
+            findings.append(core.Finding(f.signature.replace('C01:', 'C01:second-run:'), f.detail))
+    f = specs.features(spec)
+    labels = [f'backend={spec["lab"]["backend"]}', f'second:same_lab={second.get("same_lab")}', f'second:bust={second.get("bust")}']
+    return dagprop.result(obs, findings, f['n_closure'] >= 2, labels, prop='C01')
+
+
 def plan(tier: str) -> list[dict]:
     q = tier == 'quick'
     jobs = []
@@ -60,6 +77,9 @@ def plan(tier: str) -> list[dict]:
     for i in range(2):
         jobs.append({'engine': 'fork', 'n': 25 if q else 700, 'hashseed': 2 + i})
     jobs.append({'engine': 'spawn', 'n': 6 if q else 150, 'hashseed': 4})
+    jobs.append({'engine': 'two-runs:serial', 'n': 80 if q else 2500, 'hashseed': 5})
+    jobs.append({'engine': 'two-runs:controlled', 'n': 80 if q else 2500, 'hashseed': 6})
+    jobs.append({'engine': 'two-runs:fork', 'n': 14 if q else 400, 'hashseed': 7})
     return list(jobs) + dagprop.exhaustive_jobs(tier, 4)
 
 
@@ -68,10 +88,18 @@ def run_job(rec: core.Recorder, job: dict, seed: int) -> None:
         dagprop.run_exhaustive_job(rec, job, judge_obs, failing=False, cached=True)
         return
     eng = job['engine']
+    if eng.startswith('two-runs:'):
+        from hypothesis import strategies as st
+        b = eng.split(':')[1]
+        strat = st.builds(lambda sp, same, bust: {**sp, 'second': {'same_lab': same, 'bust': bust}},
+                          specs.dag_spec(max_nodes=7, backends=(b,), dup_bias=(seed % 2 == 0), storages=('local', 'local', 'none')), st.booleans(), st.booleans())
+        core.run_hypothesis(rec, eng, strat, check_two_runs, max_examples=job['n'], seed=seed, shrink=(b != 'fork' or rec.tier == 'thorough'))
+        return
     small = eng == 'spawn'
     strat = specs.dag_spec(max_nodes=5 if small else 10, backends=(eng,), dup_bias=(seed % 2 == 0))
     core.run_hypothesis(rec, eng, strat, check, max_examples=job['n'], seed=seed, shrink=(eng == 'controlled' or rec.tier == 'thorough'))
 
 
 def replay(record: dict) -> core.CaseResult:
-    return check(record['case'])
+    case = record['case']
+    return check_two_runs(case) if 'second' in case else check(case)
